@@ -161,6 +161,9 @@ def gen_planetary_config(rng, integrators=None, nmin=2, nmax=7, allow_unsafe=Tru
     if allow_tp and n >= 3 and not var and integ not in ("janus",) and rng.chance(0.3):
         cfg["N_active"] = rng.randint(1, n - 1)
         cfg["testparticle_type"] = rng.choice([0, 1])
+        if cfg["testparticle_type"] == 0:
+            for p in ps[cfg["N_active"]:]:
+                p["m"] = 0.0       # type-0 test particles must be massless (the library warns about "unexpected behaviour" otherwise)
     if radii:
         cfg["collision"] = "direct" if integ in ("mercurius", "trace") or rng.chance(0.7) else "line"
         cfg["collision_resolve"] = rng.choice(["merge", "hardsphere"])
